@@ -5,6 +5,7 @@
 
 use crate::core::Violation;
 use crate::worlds::frontends::{JobResult, PsDoc, ReqDoc};
+use cedar_policy_formatter::{policies_str_to_pretty, Config};
 use cedar_policy::{Authorizer, Context, Decision, Entities, EntityUid, PolicyId, PolicySet, Request, Schema, SchemaFragment, SlotId, ValidationMode, Validator};
 use serde::{Deserialize, Serialize};
 use serde_json::{json, Value};
@@ -25,7 +26,7 @@ pub const FAULT_NAMES: [&str; 7] = ["none", "file_absent", "torn_write_truncate"
 
 #[derive(Clone, Debug, Serialize, Deserialize, PartialEq)]
 pub struct CliOp {
-    /// 0 authorize, 1 validate, 2 translate-policy (cedar-to-json, or json-to-cedar when policy_json), 3 translate-schema cedar-to-json, 4 translate-schema json-to-cedar, 5 check-parse
+    /// 0 authorize, 1 validate, 2 translate-policy (cedar-to-json, or json-to-cedar when policy_json), 3 translate-schema cedar-to-json, 4 translate-schema json-to-cedar, 5 check-parse, 6 format
     pub kind: u8,
     pub ps: u8,
     pub store: u8,
@@ -40,6 +41,22 @@ pub struct CliOp {
     /// give the policies as a JSON policy set (`--policy-format json`)
     #[serde(default)]
     pub policy_json: bool,
+    /// validate: `--deny-warnings`, `--level N`
+    #[serde(default)]
+    pub deny_warnings: bool,
+    #[serde(default)]
+    pub level: Option<u8>,
+    /// format (kind 6): line width, indent width, `--check`, and what the stored file looks like:
+    /// 0 the formatter's own output, 1 that without its final newline, 2 that plus blank lines at
+    /// the end, 3 the unformatted original
+    #[serde(default)]
+    pub fmt_width: u16,
+    #[serde(default)]
+    pub fmt_indent: u8,
+    #[serde(default)]
+    pub fmt_check: bool,
+    #[serde(default)]
+    pub fmt_tail: u8,
     pub faults: Vec<FileFault>,
     pub hash_seed: u64,
 }
@@ -192,8 +209,25 @@ pub fn do_cli(step: usize, op: &CliOp, ps: &PsDoc, store: &[Value], schema_text:
     out.counts.push(("cli_spawns", 1));
     // ---- "write": the documents as the user stored them
     let mut policies_text = ps.statics.iter().chain(ps.templates.iter()).map(|(_, t)| t.clone()).collect::<Vec<_>>().join("\n");
+    let kind = op.kind % 7;
+    let fmt_cfg = Config { line_width: if op.fmt_width == 0 { 80 } else { op.fmt_width as usize }, indent_width: op.fmt_indent as isize };
+    if kind == 6 && op.fmt_tail % 4 != 3 {
+        // the stored file is what the formatter itself produced, possibly with a damaged tail
+        if let Ok(f) = policies_str_to_pretty(&policies_text, &fmt_cfg) {
+            policies_text = f;
+            match op.fmt_tail % 4 {
+                1 => {
+                    while policies_text.ends_with('\n') {
+                        policies_text.pop();
+                    }
+                }
+                2 => policies_text.push_str("\n\n"),
+                _ => {}
+            }
+        }
+    }
     // JSON policy-set form of the same documents (falls back to text when a document has no JSON form)
-    let mut pjson = op.policy_json;
+    let mut pjson = op.policy_json && kind != 6;
     if pjson {
         let mut st = serde_json::Map::new();
         let mut tm = serde_json::Map::new();
@@ -275,7 +309,6 @@ pub fn do_cli(step: usize, op: &CliOp, ps: &PsDoc, store: &[Value], schema_text:
     if !shim.is_empty() {
         cmd.env("LD_PRELOAD", shim);
     }
-    let kind = op.kind % 6;
     match kind {
         0 => {
             cmd.arg("authorize").arg("--policies").arg(path(0)).arg("--entities").arg(path(2));
@@ -302,6 +335,12 @@ pub fn do_cli(step: usize, op: &CliOp, ps: &PsDoc, store: &[Value], schema_text:
         }
         1 => {
             cmd.arg("validate").arg("--policies").arg(path(0)).arg("--schema").arg(path(3)).arg("--schema-format").arg(if json_schema { "json" } else { "cedar" });
+            if op.deny_warnings {
+                cmd.arg("--deny-warnings");
+            }
+            if let Some(l) = op.level {
+                cmd.arg("--level").arg(l.to_string());
+            }
             if pjson {
                 cmd.arg("--policy-format").arg("json");
             }
@@ -317,6 +356,12 @@ pub fn do_cli(step: usize, op: &CliOp, ps: &PsDoc, store: &[Value], schema_text:
         }
         4 => {
             cmd.arg("translate-schema").arg("--direction").arg("json-to-cedar").arg("--schema").arg(path(3));
+        }
+        6 => {
+            cmd.arg("format").arg("--policies").arg(path(0)).arg("--line-width").arg(fmt_cfg.line_width.to_string()).arg("--indent-width").arg(fmt_cfg.indent_width.to_string());
+            if op.fmt_check {
+                cmd.arg("--check");
+            }
         }
         _ => {
             cmd.arg("check-parse").arg("--policies").arg(path(0)).arg("--entities").arg(path(2));
@@ -450,7 +495,12 @@ pub fn do_cli(step: usize, op: &CliOp, ps: &PsDoc, store: &[Value], schema_text:
             let want: Result<bool, String> = (|| {
                 let p = api_policies(&files, with_links, pjson)?;
                 let s = api_schema_bytes(&files, json_schema)?;
-                Ok(Validator::new(s).validate(&p, ValidationMode::Strict).validation_passed())
+                let v = Validator::new(s);
+                let res = match op.level {
+                    Some(l) => v.validate_with_level(&p, ValidationMode::Strict, l as u32),
+                    None => v.validate(&p, ValidationMode::Strict),
+                };
+                Ok(res.validation_passed() && !(op.deny_warnings && !res.validation_passed_without_warnings()))
             })();
             let wc = match &want {
                 Err(_) => 1,
@@ -526,6 +576,32 @@ pub fn do_cli(step: usize, op: &CliOp, ps: &PsDoc, store: &[Value], schema_text:
                     let same = if kind == 3 { serde_json::from_str::<Value>(stdout.trim()).ok() == serde_json::from_str::<Value>(&w).ok() } else { stdout.trim() == w.trim() };
                     if code != 0 || !same {
                         out.violation = viol("cli_conversion_differs", "cli translate-schema", step, format!("exit 0 and {}", w.chars().take(200).collect::<String>()), format!("exit {code} and {}", stdout.chars().take(200).collect::<String>()));
+                    }
+                }
+            }
+        }
+        6 => {
+            let want: Result<(String, bool), String> = (|| {
+                let bytes = files[0].as_ref().ok_or("policies file absent")?;
+                let text = std::str::from_utf8(bytes).map_err(|e| e.to_string())?;
+                let f = policies_str_to_pretty(text, &fmt_cfg).map_err(|e| format!("{e:?}"))?;
+                let same = f == text;
+                Ok((f, same))
+            })();
+            match want {
+                Err(_) => {
+                    out.counts.push(("designed_failures_observed", 1));
+                    if code != 1 {
+                        out.violation = viol("cli_exit_status", "cli format", step, "exit 1 (the API cannot format these bytes)".into(), format!("exit {code}"));
+                    }
+                }
+                Ok((f, same)) => {
+                    out.counts.push(("cli_format_compared", 1));
+                    let wc = if op.fmt_check && !same { 1 } else { 0 };
+                    if code != wc {
+                        out.violation = viol("cli_exit_status", if op.fmt_check { "cli format --check" } else { "cli format" }, step, format!("exit {wc} (already formatted: {same})"), format!("exit {code}"));
+                    } else if stdout != f {
+                        out.violation = viol("cli_conversion_differs", "cli format output", step, f.chars().take(300).collect(), stdout.chars().take(300).collect());
                     }
                 }
             }
